@@ -4,8 +4,8 @@ import json, os, random, re, shutil, subprocess, tempfile, time, collections
 from . import pool, gen, build
 
 TIERS = {
-    "quick": dict(n=110, nadv=30, cfgs=3, reps_every=3, outside=14),
-    "thorough": dict(n=1400, nadv=300, cfgs=4, reps_every=2, outside=80),
+    "quick": dict(n=110, nadv=30, cfgs=3, reps_every=3, outside=14, fast_n=1500, fast_nadv=150, fast_cfgs=3),
+    "thorough": dict(n=1400, nadv=300, cfgs=4, reps_every=2, outside=80, fast_n=20000, fast_nadv=2000, fast_cfgs=4),
 }
 
 
@@ -110,8 +110,8 @@ def _run(cdir, seed, tier, T, root, log):
     jobs = copy_corpus(root)
     for j in jobs:
         j.setdefault("id", "corpus/" + j["dir"] + "#" + ",".join(j["args"]) + "#" + j.get("pkg", ""))
-    cases = gen.make_cases(rnd, root, T["n"], adversarial=False, prefix="src")
-    cases += gen.make_cases(rnd, root, T["nadv"], adversarial=True, prefix="adv")
+    cases = gen.make_cases(rnd, root, T["n"], adversarial=False, prefix="src", conflict_share=0.15)
+    cases += gen.make_cases(rnd, root, T["nadv"], adversarial=True, prefix="adv", conflict_share=0.15)
     nout = 0
     for c in cases:
         for k, cfg in enumerate(gen.configs_for(rnd, c, T["cfgs"])):
@@ -141,6 +141,31 @@ def _run(cdir, seed, tier, T, root, log):
         rres = pool.run_jobs(harness, root, reqs, env=env, timeout=120)
     finally:
         shutil.rmtree(outside, ignore_errors=True)
+    records = make_records(jobs, fres, rres, model)
+    # save package sources for records that may be reported
+    keep = {}
+    for rec in records:
+        if suspicious(rec):
+            d = rec["_files"]
+            if d not in keep:
+                keep[d] = read_tree(os.path.join(root, d))
+    dist = distribution(records)
+    out = {"seed": seed, "tier": tier, "records": records, "sources": keep, "distribution": dist,
+           "driver_error": model.get("__driver_error__")}
+    # fast stage: the same comparison and oracles on many more inputs, loaded in memory
+    try:
+        fast = _run_fast(cdir, seed, T, log)
+    except Exception as ex:   # never let the amplifier break the designated tie
+        fast = {"skipped": "fast stage failed: %r" % (ex,)}
+    out["fast"] = {k: v for k, v in fast.items() if k not in ("records", "sources")}
+    if fast.get("records"):
+        out["records"] += fast["records"]
+        out["sources"].update(fast.get("sources") or {})
+        out["driver_error"] = out["driver_error"] or fast.get("driver_error")
+    return out
+
+
+def make_records(jobs, fres, rres, model):
     records = []
     for j, f, r in zip(jobs, fres, rres):
         rec = {"id": j["id"], "job": job_key(j), "adv": bool(j.get("adv")), "corpus": bool(j.get("corpus")),
@@ -160,19 +185,75 @@ def _run(cdir, seed, tier, T, root, log):
             noop = runs.get("noop", {})
             if m is not None:
                 rec["bytes_eq"] = (m.get("noop") == noop.get("out")) if not (noop.get("err") or noop.get("panic")) else None
-        # keep the material needed for a replay of anything suspicious
+            # keep the material needed for a replay of anything suspicious
         rec["_files"] = j["dir"]
         records.append(rec)
-    # save package sources for records that may be reported
-    keep = {}
-    for rec in records:
-        if suspicious(rec):
-            d = rec["_files"]
-            if d not in keep:
-                keep[d] = read_tree(os.path.join(root, d))
-    dist = distribution(records)
-    return {"seed": seed, "tier": tier, "records": records, "sources": keep, "distribution": dist,
-            "driver_error": model.get("__driver_error__")}
+    return records
+
+
+FASTBASE = """package fastbase
+
+import (
+%s)
+
+// I is what the base Mocker of the fast mode is created from.
+type I interface{ M() }
+"""
+
+
+def _run_fast(cdir, seed, T, log):
+    """Fast stage.  The harness built with the overlay hooks parses and type-checks the source
+    package in-process and hands it to the real moq (hook VerifMocker): no `go list`, a few
+    milliseconds per job.  Same facts -> Lean driver -> byte comparison, same oracles (without
+    goimports, which needs the packages on the go command's search path)."""
+    harness, driver = os.path.join(cdir, "harnessf"), os.path.join(cdir, "driver")
+    if not (os.path.exists(harness) and os.path.exists(driver)):
+        return {"skipped": "harness with overlay hooks not built"}
+    t0 = time.time()
+    root = tempfile.mkdtemp(prefix="moqverif-fast-")
+    try:
+        rnd = random.Random(seed * 7919 + 101)
+        gen.write_library(root)
+        os.makedirs(os.path.join(root, "fastbase"))
+        open(os.path.join(root, "fastbase", "b.go"), "w").write(
+            FASTBASE % "".join('\t_ "%s"\n' % p for p, _ in gen.STD))
+        env = dict(pool.GOENV, VERIF_EXPORTS=export_list(root))   # library + std only: before the cases are written
+        cases = gen.make_cases(rnd, root, T["fast_n"], adversarial=False, prefix="fsrc", conflict_share=0.4)
+        cases += gen.make_cases(rnd, root, T["fast_nadv"], adversarial=True, prefix="fadv", conflict_share=0.4)
+        jobs = []
+        for c in cases:
+            for k, cfg in enumerate(gen.configs_for(rnd, c, T["fast_cfgs"])):
+                cfg["id"] = "fast/%s#%d" % (c["dir"], k)
+                cfg["adv"] = c["adv"]
+                jobs.append(cfg)
+        fastcfg = {"Root": root, "Mod": gen.MOD, "Base": os.path.join(root, "fastbase")}
+        reqs = [{"job": j, "fmts": ["noop", ""], "facts": True, "oracle": True, "reps": 2 if i % 5 == 0 else 0,
+                 "fast": dict(fastcfg, CheckFind=(i % 97 == 0))} for i, j in enumerate(jobs)]
+        rres = pool.run_jobs(harness, root, reqs, env=env, timeout=120)
+        t1 = time.time()
+        cases_s = [r["case"] for r in rres if r and r.get("case")]
+        model = pool.run_driver(driver, cases_s, nproc=16)
+        t2 = time.time()
+        records = make_records(jobs, rres, rres, model)
+        hook_bad = [r for r in rres if r and "hook-mismatch" in json.dumps(r.get("runs", {}))[:2000]]
+        if hook_bad:
+            return {"skipped": "overlay hooks do not fit this tree: " + json.dumps(hook_bad[0].get("runs"))[:300]}
+        keep = {}
+        for rec in records:
+            rec["fast"] = True
+        # sources for a replay: first what can become a violation (inside WF) or a disagreement
+        for important in (True, False):
+            for rec in records:
+                imp = (wf(rec) and bool(rec.get("checks"))) or rec.get("bytes_eq") is False or bool(rec.get("crash"))
+                if suspicious(rec) and imp == important and len(keep) < (400 if important else 60):
+                    d = rec["_files"]
+                    if d not in keep:
+                        keep[d] = read_tree(os.path.join(root, d))
+        return {"records": records, "sources": keep, "jobs": len(jobs), "real_s": round(t1 - t0, 1),
+                "model_s": round(t2 - t1, 1), "distribution": distribution(records),
+                "driver_error": model.get("__driver_error__")}
+    finally:
+        shutil.rmtree(root, ignore_errors=True)
 
 
 def read_tree(d):
